@@ -316,6 +316,22 @@ def d10c():
     return (not a.equals(b)), "time signature at tick 0 equals time signature at tick 6"
 
 
+@witness("D21", ["C13"])
+def d21():
+    import mido
+    f = mido.MidiFile(ticks_per_beat=384)
+    tr = mido.MidiTrack()
+    for typ, dt in (("note_on", 878), ("note_off", 1), ("note_on", 288), ("note_off", 64)):
+        tr.append(mido.Message(typ, note=60, velocity=64 if typ == "note_on" else 0, time=dt))
+    f.tracks.append(tr)
+    with tempfile.TemporaryDirectory() as d:
+        p = os.path.join(d, "x.mid")
+        f.save(p)
+        seqs = Sequence.sequences_load(p)
+    n = notes_of(seqs[0])
+    return any(x[2] == 73 and x[3] == 4 for x in n), f"loaded notes {n}; the note 73..77 is missing"
+
+
 def run(ids=None):
     res = {}
     for k, (props, f) in W.items():
